@@ -10,6 +10,8 @@
 #include "nmtools/array/functional/reshape.hpp"
 #include "nmtools/array/functional/flatten.hpp"
 #include "nmtools/array/functional/flip.hpp"
+#include "nmtools/array/functional/sum.hpp"
+#include "nmtools/array/view/sum.hpp"
 #include "nmtools/array/functional/ufuncs/add.hpp"
 #include "nmtools/array/functional/ufuncs/multiply.hpp"
 #include "nmtools/array/functional/ufuncs/invert.hpp"
@@ -20,6 +22,7 @@
 #include "nmtools/array/view/ufuncs/add.hpp"
 #include "nmtools/array/view/ufuncs/multiply.hpp"
 #include "nmtools/array/view/ufuncs/invert.hpp"
+#include <cmath>
 namespace view = nm::view; namespace fn = nm::functional;
 using a2_t = hyb_t<unsigned,16,2>;
 
@@ -67,3 +70,38 @@ KERNEL int K(k_th_add)(const size_t* shape, const unsigned* da, const unsigned* 
   auto A = na::create_array<2>(nm::data(*nm::get<0>(nm::unwrap(ops))), shape, (size_t)2);
   auto B = na::create_array<2>(nm::data(*nm::get<1>(nm::unwrap(ops))), shape, (size_t)2);
   run_body<2>(f, out, os, od, nmtools_tuple{A,B}, tid, bid, bsz); put(nm::shape(v), oshape); return 1; }
+// depth 2 / 3 over one leaf, and a reduction
+KERNEL int K(k_th_flip_transpose)(const size_t* shape, const unsigned* data, const int* p, unsigned* out, size_t* oshape, GEOM){
+  a2_t a; if (!mk2(a,shape,data)) return -1; STEP1(2, view::flip(view::transpose(a, mk_arr<int,2>(p)), p[2])) }
+KERNEL int K(k_th_invert_flip)(const size_t* shape, const unsigned* data, const int* p, unsigned* out, size_t* oshape, GEOM){
+  a2_t a; if (!mk2(a,shape,data)) return -1; STEP1(2, view::invert(view::flip(a, p[0]))) }
+KERNEL int K(k_th_invert_flip_transpose)(const size_t* shape, const unsigned* data, const int* p, unsigned* out, size_t* oshape, GEOM){
+  a2_t a; if (!mk2(a,shape,data)) return -1; STEP1(2, view::invert(view::flip(view::transpose(a, mk_arr<int,2>(p)), p[2]))) }
+KERNEL int K(k_th_sum)(const size_t* shape, const unsigned* data, const int* p, unsigned* out, size_t* oshape, GEOM){
+  a2_t a; if (!mk2(a,shape,data)) return -1; STEP1(1, view::sum(a, p[0])) }
+// CUDA-faithful operand kind: cuda::context_t::create_array (cuda/context.hpp:161-200) hands the kernel a
+// device_array<element, static_vector<size_t,8>, dim_t> per leaf (shape copied element by element, buffer copied by cudaMemcpy);
+// the transcription below keeps the shape copy loop and uses the host buffer as the device buffer. out_static_dim = 0 as in run_().
+template <typename array_t> static inline auto cuda_create_array(const array_t& array){
+  const auto buffer = nm::data(array); const auto shape = nm::shape(array); const auto dim = nm::dim(array);
+  using element_t = meta::get_element_type_t<array_t>; using dim_t = meta::remove_cvref_t<decltype(dim)>;
+  using device_shape_t = nmtools_static_vector<size_t,8>;
+  auto device_shape = device_shape_t{}; device_shape.resize(dim);
+  for (size_t i=0; i<dim; i++) { nm::at(device_shape,i) = nm::at(shape,i); }
+  using device_array_t = na::device_array<element_t,device_shape_t,dim_t>;
+  return device_array_t{const_cast<element_t*>(buffer),device_shape,dim};
+}
+#define STEPD(MV, ...) { auto mv = MV; if (!nm::has_value(mv)) return 0; const auto& v = nm::unwrap(mv); \
+  auto f = fn::get_function_composition(v); const auto& mops = fn::get_function_operands(v); const auto& ops = nm::unwrap(mops); \
+  size_t os[4]; size_t od = put(nm::shape(v), os); \
+  run_body<0>(f, out, os, od, nmtools_tuple{__VA_ARGS__}, tid, bid, bsz); put(nm::shape(v), oshape); return 1; }
+KERNEL int K(k_thd_transpose)(const size_t* shape, const unsigned* data, const int* axes, unsigned* out, size_t* oshape, GEOM){
+  a2_t a; if (!mk2(a,shape,data)) return -1; STEPD(view::transpose(a, mk_arr<int,2>(axes)), cuda_create_array(*nm::get<0>(ops))) }
+KERNEL int K(k_thd_add)(const size_t* shape, const unsigned* da, const unsigned* db, unsigned* out, size_t* oshape, GEOM){
+  a2_t a, b; if (!mk2(a,shape,da) || !mk2(b,shape,db)) return -1;
+  STEPD(view::add(a, b), cuda_create_array(*nm::get<0>(ops)), cuda_create_array(*nm::get<1>(ops))) }
+// launch-size arithmetic: the expression of cuda/context.hpp:262-263, hip/context.hpp:270-271, sycl/context.hpp:466-467 (warp_size 32) and
+// opencl/context.hpp:478 (local size from the device) TRANSCRIBED, because these headers need the device runtimes. Not nmtools code under test
+// in the strict sense: the harness that uses it is labelled as a transcription.
+KERNEL size_t K(k_launch_thread_size)(size_t out_size, unsigned local){
+  auto warp_size = (int)local; auto thread_size = size_t(std::ceil(float(out_size) / warp_size)) * warp_size; return thread_size; }
